@@ -22,7 +22,7 @@ var c03Prec = []int{1, 2, 3, 3, 4, 4, 4, 4, 5, 5, 6, 6, 6, 8}
 const c03Union = 13
 
 var c03Operands = [][]string{
-	{"2"}, {"'s'"}, {"a"}, {"not", "(", "b", ")"}, {"(", "3", ")"}, {"b"},
+	{"2"}, {"'s'"}, {"a"}, {"not", "(", "b", ")"}, {"(", "3", ")"}, {"b"}, {".."}, {"a", "/", ".."},
 }
 
 type c03Expr struct {
@@ -133,7 +133,9 @@ func VerifH_C03_Precedence() {
 	for i := 0; i < n; i++ {
 		var o []string
 		if kinds <= 1 {
-			o = [][]string{{"a"}, {"2"}, {"b"}, {"c"}}[i%4]
+			// fixed operands: a parent step first (operator names and '*' directly after
+			// ".." are the delicate case of the XPath 3.7 disambiguation rule)
+			o = [][]string{{".."}, {"2"}, {"a", "/", ".."}, {"c"}}[(i+vrt.Param("shift", 0))%4]
 		} else {
 			o = c03Operands[vrt.Choice("operand"+strconv.Itoa(i), kinds)]
 		}
